@@ -4,7 +4,7 @@ statuses in any order incl. stale reports); monitor c03 looks the new tip of
 every moved destination up in the host's build-status table."""
 from ..sysmc import check
 from ..sysmc.drivers import BYPASS_REVIEW
-from ..sysmc.world import ADMIN
+from ..sysmc.world import ADMIN, AUTHOR
 
 PROP = 'C03'
 PR1, PR2 = 'bugfix/TEST-1', 'bugfix/TEST-2'
@@ -58,12 +58,30 @@ def specs(tier):
                        ['open', PR2, 'development/10.0'],
                        ['eval_pr', 4], ['eval_pr', 5]],
                  statuses_int=[], statuses_q=['SUCCESSFUL', 'FAILED']),
+            # stacked pull requests: the second one is forked from the tip of
+            # the first one's source branch
+            spec('skipq-D2-stacked', 'D2', None, None, skip=True, depth=5,
+                 statuses_q=['SUCCESSFUL'],
+                 init=[['open', PR1, 'development/4.3'],
+                       ['open', PR2, 'development/4.3', AUTHOR, None, None,
+                        PR1],
+                       ['eval_pr', 1], ['eval_pr', 2]]),
             # a developer commits on an integration branch (3 targets)
             spec('skipq-D3-manual', 'D3', 'development/4.3', None, skip=True,
                  depth=4, statuses_q=['SUCCESSFUL'], manual=['commit'],
                  init=[['open', PR1, 'development/4.3'], ['eval_pr', 1]]),
         ]
-    out = [spec('skipq-D3-manual', 'D3', 'development/4.3', None, skip=True,
+    out = [spec('skipq-D3-stacked', 'D3', None, None, skip=True, depth=8,
+                statuses_q=['SUCCESSFUL', 'FAILED'],
+                init=[['open', PR1, 'development/4.3'],
+                      ['open', PR2, 'development/4.3', AUTHOR, None, None,
+                       PR1]]),
+           spec('q-D3-stacked', 'D3', None, None, depth=8,
+                statuses_q=['SUCCESSFUL', 'FAILED'],
+                init=[['open', PR1, 'development/4.3'],
+                      ['open', PR2, 'development/5.1', AUTHOR, None, None,
+                       PR1]]),
+           spec('skipq-D3-manual', 'D3', 'development/4.3', None, skip=True,
                 depth=7, statuses_q=['SUCCESSFUL', 'FAILED'],
                 manual=['commit', 'revert'], pushes=1,
                 init=[['open', PR1, 'development/4.3'], ['eval_pr', 1]]),
